@@ -247,6 +247,22 @@ var panicExceptions = map[string]string{
 	"(*path/ast.RegexNode).Regexp":      "the pattern and flags were validated with regexp/syntax when the node was built (ast.NewRegex); R-REGEXFLAGS checks that the validator's flags and the compiler's inline flags agree for all 32 flag sets",
 }
 
+// panicException: the tabled exceptions. The regexp one is structural: any
+// regexp.MustCompile in a method of *ast.RegexNode compiles the node's own
+// validated pattern (R-REGEXFLAGS decides that the validated inputs are the
+// stored ones), wherever the method is called from.
+func (p *Prog) panicException(fn *ssa.Function, s PanicSite) (string, bool) {
+	if why, ok := panicExceptions[fnName(fn)]; ok {
+		return why, true
+	}
+	if c, ok := s.Instr.(*ssa.Call); ok && calleeQualified(&c.Call) == "regexp.MustCompile" && fn.Signature.Recv() != nil {
+		if n := namedOf(fn.Signature.Recv().Type()); n != nil && n.Obj().Name() == "RegexNode" && n.Obj().Pkg() != nil && n.Obj().Pkg().Path() == pkgAST {
+			return panicExceptions["(*path/ast.RegexNode).Regexp"], true
+		}
+	}
+	return "", false
+}
+
 // dischargeSite tries the local discharges (a)/(a') for a panic site.
 func (p *Prog) dischargeSite(s PanicSite) (bool, string) {
 	switch s.Kind {
@@ -374,7 +390,7 @@ func rulePanic(name, doc string, rootsOf func(p *Prog) []*ssa.Function, wantSent
 						out.ok(key, site, fnName(fn), "below a recovering root: the panic is converted into the documented error")
 						continue
 					}
-					if why, ok := panicExceptions[fnName(fn)]; ok {
+					if why, ok := p.panicException(fn, s); ok {
 						out.excepted(key, site, fnName(fn), why)
 						continue
 					}
